@@ -6,7 +6,8 @@ Driver glue for C15.
 
 fields
 * `bps` — the directories holding a `buildpack.toml`, `;`-separated: `id>dir>hex(buildpack.toml)>K>extra` with
-  `K = L` (libcnb.rs; extra = `pkgName:bin,bin,…`), `C` (composite; extra = `hex(buildpack uri):hex(dep),…:none|linux|windows`),
+  `K = L` (libcnb.rs, member of the root cargo workspace; extra = `pkgName:bin,bin,…`), `S` (libcnb.rs crate that is its own
+  cargo workspace, excluded from the root one; same extra), `C` (composite; extra = `hex(buildpack uri):hex(dep),…:none|linux|windows`),
   `F` (foreign; extra = `-`). `dir` is relative to the workspace root.
 * `inv` — the invocation directory relative to the workspace root (`.` = the root).
 * `cfg` — `dev|release` `,` `-` (default package directory) or hex of the `--package-dir` argument (a leading `$T` is
@@ -49,7 +50,7 @@ def parseProfile (s : String) : Option Profile :=
 
 def parseKind (k extra : String) : Option Kind :=
   if k = "F" then some .foreign
-  else if k = "L" then
+  else if k = "L" ∨ k = "S" then
     match extra.splitOn ":" with
     | [pkgName, bins] => if pkgName = "" then none else some (.libcnb pkgName (splitList bins ","))
     | _ => none
@@ -65,12 +66,12 @@ def parseKind (k extra : String) : Option Kind :=
     | _ => none
   else none
 
-def parseBp (s : String) : Option Buildpack :=
+def parseBp (s : String) : Option (Buildpack × Bool) :=
   match s.splitOn ">" with
   | [id, dir, desc, k, extra] =>
-    if id = "" ∨ dir = "" then none else
+    if id = "" ∨ dir = "" ∨ (k = "S" ∧ dir = ".") then none else
     match parseKind k extra, hexDecode desc with
-    | some kind, some _ => some ⟨id, (if dir = "." then [] else dir.toList), desc, kind⟩
+    | some kind, some _ => some (⟨id, (if dir = "." then [] else dir.toList), desc, kind⟩, k = "S")
     | _, _ => none
   | _ => none
 
@@ -119,6 +120,7 @@ def applyOp (fs : FS) : Op → FS
     write p n (mkdirAll p.dropLast ((removeAll p fs).filter (fun e => !(e.1.isPrefixOf p && e.1 != p && e.2 != .dir))))
 
 structure Input where
+  /-- the cargo workspace the invocation directory belongs to (`effectiveWorkspace`) -/
   ws : Workspace
   inv : Str
   cfg : Config
@@ -133,16 +135,23 @@ def parseInput (fields : List String) : Option Input :=
   match fields with
   | [bps, inv, cfg, prev, ops] =>
     match allSome ((splitList bps ";").map parseBp), parseCfg cfg, allSome ((splitList ops "|").map parseOp) with
-    | some bps, some cfg, some ops =>
+    | some bpsS, some cfg, some ops =>
+      let bps := bpsS.map (·.1)
+      let standalone := (bpsS.filter (·.2)).map (·.1.dir)
+      let full : Workspace := ⟨wsRoot, bps⟩
+      let eff := effectiveWorkspace full standalone (invAbs inv)
       if !distinct (bps.map (·.id)) ∨ inv = "" then none else
       let prevP : Option (Option (Str × Profile)) :=
         if prev = "-" then some none
         else match prev.splitOn "," with
-          | [i, p] => (parseProfile p).map (fun p => some (invAbs i, p))
+          | [i, p] =>
+            -- the earlier run must belong to the same cargo workspace (same default package directory)
+            if (effectiveWorkspace full standalone (invAbs i)).root != eff.root then none
+            else (parseProfile p).map (fun p => some (invAbs i, p))
           | _ => none
       match prevP with
       | none => none
-      | some pv => some ⟨⟨wsRoot, bps⟩, invAbs inv, cfg, pv, ops⟩
+      | some pv => some ⟨eff, invAbs inv, cfg, pv, ops⟩
     | _, _, _ => none
   | _ => none
 
